@@ -82,6 +82,38 @@ static int vu_shape_ok(const struct vu_shape *s, const URI_CHAR *pool) {
 	return 1;
 }
 
+/* delimiter-level legality of the component texts (what the parser guarantees, reduced to the characters that decide
+ * where a component ends or how a host is classified):  scheme = ALPHA *( ALPHA / DIGIT / "+" / "-" / "." );
+ * user info without "@/?#[]"; reg-name without ":/?#@[]" and not of the digits-and-dots form of an IPv4 literal;
+ * IPv4 text = digits and dots with a dot; IPv6 text contains ":"; IPvFuture text starts with "v"; port = digits;
+ * segments without "/?#"; query without "#" */
+static int vu_in(URI_CHAR c, const char *set) { for (; *set; set++) if (c == (URI_CHAR)*set) return 1; return 0; }
+static int vu_txt_ok(const struct vu_rng *r, const URI_CHAR *pool, const char *forbidden) {
+	int i; for (i = 0; i < VL; i++) if (i < r->len && vu_in(pool[r->off + i], forbidden)) return 0; return 1;
+}
+static int vu_legal(const struct vu_shape *s, const URI_CHAR *pool) {
+	int i, dots = 0, nondigit = 0, colon = 0;
+	for (i = 0; i < VL; i++) if (i < s->scheme.len) {
+		URI_CHAR c = pool[s->scheme.off + i];
+		int alpha = (c >= _UT('a') && c <= _UT('z')) || (c >= _UT('A') && c <= _UT('Z'));
+		if (!(alpha || (i > 0 && ((c >= _UT('0') && c <= _UT('9')) || c == _UT('+') || c == _UT('-') || c == _UT('.'))))) return 0;
+	}
+	if (!vu_txt_ok(&s->userInfo, pool, "@/?#[]")) return 0;
+	for (i = 0; i < VL; i++) if (i < s->hostText.len) {
+		URI_CHAR c = pool[s->hostText.off + i];
+		if (c == _UT('.')) dots++; else if (!(c >= _UT('0') && c <= _UT('9'))) nondigit++;
+		if (c == _UT(':')) colon++;
+	}
+	if (s->hostkind == VU_HK_REG && (!vu_txt_ok(&s->hostText, pool, ":/?#@[]") || (dots > 0 && nondigit == 0))) return 0;
+	if (s->hostkind == VU_HK_IP4 && (nondigit > 0 || dots == 0)) return 0;
+	if (s->hostkind == VU_HK_IP6 && (colon == 0 || !vu_txt_ok(&s->hostText, pool, "/?#@[]"))) return 0;
+	if (s->hostkind == VU_HK_FUT && (pool[s->hostText.off] != _UT('v') || !vu_txt_ok(&s->hostText, pool, "/?#@[]"))) return 0;
+	for (i = 0; i < VL; i++) if (i < s->port.len && !(pool[s->port.off + i] >= _UT('0') && pool[s->port.off + i] <= _UT('9'))) return 0;
+	for (i = 0; i < VM; i++) if (i < s->nseg && !vu_txt_ok(&s->seg[i], pool, "/?#")) return 0;
+	if (!vu_txt_ok(&s->query, pool, "#")) return 0;
+	return 1;
+}
+
 static int vu_nblocks_owned; /* number of ledger blocks handed to the last URI built */
 
 static void vu_set_range(URI_TYPE(TextRange) *r, const struct vu_rng *s, const URI_CHAR *pool, int owned) {
